@@ -27,14 +27,15 @@ META = {
     'technique': 'explicit-state BFS over send/answer/timeout/late-answer/failure histories with canonical-state dedup, plus '
                  'preemption-bounded line-granular schedule enumeration of client threads against the reactor thread, on the real '
                  'Session, HostConnection, Connection and ResponseFuture',
-    'text': 'One host, connections with a scaled-down stream-id space (3-4 ids, 1-2 initially free, orphan threshold 2) so that '
-            'exhaustion, growth of highest_request_id, reuse, orphaning and connection replacement occur within 3-5 requests. '
-            'Every answer carries the tag of the request the server received on that stream. '
-            'E: all histories up to the depth bound of send / answer any unanswered request in any order / client timeout of any '
-            'request / late answer to a timed-out request / connection failure / next executor task. '
-            'S: 2 client threads x 1-2 execute_async against a reactor thread delivering answers and firing one client timeout in '
-            'every order, every schedule within the preemption bound, scheduling points at every line of Connection.get_request_id/'
-            'send_msg/process_msg, HostConnection.borrow_connection/return_connection, ResponseFuture._query/_on_timeout/_set_result. '
+    'text': 'One host, connections with a scaled-down stream-id space (3-4 ids, 2 free after the handshake, orphan threshold 2; also protocol '
+            'v2 with the legacy pool: 2 connections x 2 ids) so that exhaustion, growth of highest_request_id, reuse, orphaning and connection '
+            'replacement occur within 3-5 requests.  Every answer carries the tag of the request the server received on that stream. '
+            'E: all histories up to the depth bound of send / answer any unanswered request in any order (rows, or overloaded + retry on the '
+            'same host) / client timeout of any request / late answer to a timed-out request / connection failure / next executor task. '
+            'S: 2 client threads x 1-2 execute_async, on top of a prologue that leaves a request outstanding or orphaned, against a reactor '
+            'thread that delivers answers, fires one client timeout (thorough: and one connection failure) in every order; every schedule '
+            'within the preemption bound, scheduling points at lock operations and at every line of Connection.get_request_id/send_msg/'
+            'process_msg, HostConnection.borrow_connection/return_connection, ResponseFuture._query/_on_timeout/_set_result. '
             'Oracle: no request arrives at the server on a stream on which another is still unanswered; no stream id beyond the '
             'maximum; a callback only ever receives the tag of its own request, once; in_flight equals the number of unanswered '
             'requests; the free list never holds an id twice or an id in use; whenever everything sent on an open connection is '
@@ -71,7 +72,7 @@ class H(explore.Harness):
         if 'reuse' in st.flags or 'orphan' in st.flags:
             part.mark_nontrivial(repr(st.canon()))
         if 'reuse' in st.flags and 'late' in st.flags:
-            part.sample({'layer': 'E', 'history': hist, 'arrivals': st.arrivals, 'flags': list(fk)}, limit=1)
+            part.sample({'layer': 'E', 'history': hist, 'arrivals (conn, stream, tag)': st.arrivals, 'flags': list(fk)}, limit=1)
 
 
 def e_configs(ctx):
@@ -79,11 +80,13 @@ def e_configs(ctx):
     cfgs = [
         # name, params, depth quick / thorough
         # ids 0..3, two free after the handshake, the others minted on demand; at most 3 in flight
-        ('v4-grow', dict(base, initial_ids=2, n_req=5, max_faults=0), 9, 11),
+        ('v4-grow', dict(base, initial_ids=2, n_req=5, max_faults=0), 8, 12),
         # ids 0..2, at most 2 in flight: exhaustion and reuse from the third request on; one connection failure
         ('v4-3ids-fault', dict(base, max_in_flight=3, initial_ids=1, n_req=5, max_faults=1), 8, 10),
         # all four ids free from the start (the driver's own initial state when max_in_flight <= 300); one failure
         ('v4-full-fault', dict(base, initial_ids=None, n_req=4, max_faults=1), 8, 10),
+        # the server may also answer 'overloaded' and the retry policy re-sends on the same host (a second way ids are recycled)
+        ('v4-retry', dict(base, max_in_flight=3, initial_ids=1, n_req=4, max_faults=0, retry_kind=True), 7, 9),
         # protocol v2: HostConnectionPool with two connections of ids 0..1, one request in flight each
         ('v2-pool', dict(base, protocol_version=2, max_in_flight=1, n_req=5, max_faults=0), 8, 10),
     ]
@@ -137,8 +140,10 @@ def s_harness(params, prefix, part):
                     break
                 tmo = [f for f, t in st.timeout_timers() if f in fired or len(fired) < params.get('timeouts', 1)]
                 opts = [('respond', p) for p in pend] + [('timeout', f) for f in tmo]
-                if not clients_done and (not opts or params.get('idle_choice', False)):
+                if not clients_done and not opts:
                     opts.append(('idle', None))
+                if st.faults < params.get('max_faults', 0):
+                    opts += [('fail', c) for c in st.pool_conns() if not (c.is_closed or c.is_defunct)]
                 kind, x = opts[s.choose(len(opts), 'reactor')]
                 if kind == 'respond':
                     st.answer(x)
@@ -146,6 +151,8 @@ def s_harness(params, prefix, part):
                     if x not in fired:
                         fired.append(x)
                     st.fire_timeout(x)
+                elif kind == 'fail':
+                    st.fail_connection(x)       # the reactor notices the broken socket
                 else:
                     mark = (len(st.arrivals), done[0])
                     s.block(lambda: (len(st.arrivals), done[0]) != mark, None, 'reactor idle (nothing readable, no timer due)')
@@ -153,7 +160,7 @@ def s_harness(params, prefix, part):
         # the event loop is up before any client calls execute_async: the reactor thread starts first and goes
         # idle; the clients count as blocked until then (so that the start order is not a choice of the tree)
         up = []
-        r = s.spawn(lambda: (up.append(1), reactor()), 'reactor')
+        s.spawn(lambda: (up.append(1), reactor()), 'reactor')
         for ci, n in enumerate(plan):
             s.spawn(client(ci, n), 'client%d' % ci).waiting = lambda: bool(up)
         s.run()
@@ -173,7 +180,7 @@ def s_harness(params, prefix, part):
         judge(st, part, data, 'S')
         fk = flags_key(st)
         preempted = any(p.chosen for p in s.trace if not p.kind.startswith('data'))
-        part.outcome((fk, 'preempted' if preempted else 'serial'))
+        part.outcome((fk, 'switched' if preempted else 'serial'))
         for fl in fk:
             part.count('S_executions_with_' + fl)
         if preempted:
@@ -181,19 +188,29 @@ def s_harness(params, prefix, part):
         if 'reuse' in st.flags or 'orphan' in st.flags:
             part.mark_nontrivial(repr((params['clients'], params.get('initial_ids'), s.choices())))
         if 'reuse' in st.flags and 'orphan' in st.flags and preempted:
-            part.sample({'layer': 'S', 'clients': plan, 'choices': s.choices(), 'arrivals': st.arrivals, 'flags': list(fk)}, limit=1)
+            ch = s.choices()
+            part.sample({'layer': 'S', 'clients': plan, 'setup': params.get('setup', []), 'choice_points': len(ch),
+                         'non_default_choices (index, value)': [(i, c) for i, c in enumerate(ch) if c],
+                         'arrivals (conn, stream, tag)': st.arrivals, 'flags': list(fk)}, limit=1)
         return s
     finally:
         st.close()
 
 
 def s_configs(ctx):
+    # ids 0..2, at most 2 in flight, ids 0 and 1 free after the handshake
     base = dict(protocol_version=4, orphaned_threshold=2, timeout=100.0, timeouts=1, max_in_flight=3, initial_ids=1)
     cfgs = [
-        # name, params, preemption bound quick / thorough (None = not run)
+        # name, params, preemption bound quick / thorough (None = not run in that tier)
+        # one request already timed out (orphaned stream) before two clients send one request each
         ('preorphan-1+1', dict(base, setup=[('send',), ('timeout', 0)], clients=[1, 1]), 1, 2),
-        ('pre1-1+1', dict(base, setup=[('send',)], clients=[1, 1]), None, 2),
+        # one request outstanding before two clients send one request each
+        ('pre1-1+1', dict(base, setup=[('send',)], clients=[1, 1]), None, 1),
+        # the same with one connection failure noticed by the reactor at any point
+        ('preorphan-1+1-fault', dict(base, setup=[('send',), ('timeout', 0)], clients=[1, 1], max_faults=1), None, 1),
+        # nothing outstanding; one client sends two requests, the other one
         ('2+1', dict(base, clients=[2, 1]), None, 1),
+        # ids 0..3: one outstanding, one orphaned, highest_request_id grows under the two clients
         ('4ids-pre2-1+1', dict(base, max_in_flight=4, setup=[('send',), ('send',), ('timeout', 1)], clients=[1, 1]), None, 1),
     ]
     return [(n, p, bt if ctx.thorough else bq) for n, p, bq, bt in cfgs if (bt if ctx.thorough else bq) is not None]
@@ -203,16 +220,37 @@ def run_s(ctx):
     import gc
     gc.freeze()     # the loaded driver stays out of the per-execution collections of the forked workers
     for name, params, bound in s_configs(ctx):
-        sched.explore(ctx, 'c09-S-' + name, s_harness, params, bound)
+        sched.explore(ctx, 'c09-S-' + name, s_harness, params, bound, max_executions=800000)
+
+
+def _layer(ctx, name, fn):
+    import time
+    before, t0 = dict(ctx.counters), time.time()
+    fn(ctx)
+    d = dict((k, v - before.get(k, 0)) for k, v in ctx.counters.items() if v != before.get(k, 0))
+    ctx.cov.setdefault('layers', {})[name] = {
+        'executions': d.get('executions', 0), 'states': d.get('states', 0), 'transitions_or_steps': d.get('transitions', 0),
+        'with_stream_id_reuse': d.get(name + '_transitions_with_reuse', d.get(name + '_executions_with_reuse', 0)),
+        'with_orphaned_request': d.get(name + '_transitions_with_orphan', d.get(name + '_executions_with_orphan', 0)),
+        'with_late_answer_to_orphan': d.get(name + '_transitions_with_late', d.get(name + '_executions_with_late', 0)),
+        'wall_s': round(time.time() - t0, 1)}
 
 
 def run(ctx):
-    run_e(ctx)
-    run_s(ctx)
-    ctx.cov['rule'] = ('E: state = event history replayed on a fresh real Session; non-trivial = distinct canonical state reached by a '
-                       'history in which a stream id was really used a second time or a request was really orphaned; outcomes = the set '
-                       'of things that happened in the execution (reuse, orphan, late answer, growth, exhaustion, threshold, replacement, failure)')
+    _layer(ctx, 'E', run_e)
+    del ctx.samples[4:]         # leave room for a written-out schedule of layer S
+    _layer(ctx, 'S', run_s)
+    ctx.count('states', ctx.cov['layers']['S']['executions'])     # layer S is stateless: one state per execution
+    ctx.cov['rule'] = ('E: state = event history replayed on a fresh real Session; S: execution = one schedule (choice list) on a fresh real '
+                       'Session.  Non-trivial = distinct canonical state (E) / distinct schedule (S) in which a stream id was really used a second '
+                       'time on a connection or a request was really orphaned by its client timeout.  Outcomes = the set of things that happened '
+                       '(reuse, orphan, late answer to an orphan, growth of highest_request_id, exhaustion, orphan threshold, replacement, '
+                       'connection failure, busy-wait in borrow_connection), for S also whether the schedule switched threads mid-way')
+    ctx.cov['preemption_bound'] = dict((n, b) for n, _, b in s_configs(ctx))
+    ctx.cov['depth_bound'] = dict((n, d) for n, _, d in e_configs(ctx))
     ctx.assume('engine E: handlers are atomic with respect to each other (single-threaded histories)')
+    ctx.assume('engine S: client timeouts are served by the reactor thread (as in the asyncore, libev, twisted, asyncio, gevent and eventlet '
+               'reactors), never concurrently with process_msg; preemption at source-line granularity inside the focus functions and at lock operations')
     ctx.assume('virtual server answers are well-formed frames of the negotiated protocol version')
     ctx.assume('the id space is scaled down (max_in_flight 3-4, initial free list 1-2 ids, orphaned_threshold 2); the code paths are the same as for 32768 ids')
 
@@ -222,7 +260,11 @@ def replay(ctx, data):
         part = Part()
         s_harness(data['params'], data['prefix'], part)
     else:
-        part = explore.replay(H, data['params'], [tuple(e) for e in data['history']])
+        try:
+            part = explore.replay(H, data['params'], [tuple(e) for e in data['history']])
+        except c09lib.NotEnabled as e:
+            print('the recorded history cannot happen on this tree: %s' % e)
+            return False
     for fp, what, _ in part.violations:
         print(fp, '::', what)
     return bool(part.violations)
